@@ -3,6 +3,10 @@
 import json, sys
 
 CLAIMED = {
+ "C12": ("3/C12", "seeded search over mixed histories (ops on tensors, caller arrays and views of either, out=, in-place, nnet layers) with backward seeded by caller arrays (also one array for two terminals), tensors and arrays taken from .data/.grad; byte checksums of every caller-owned array and every tensor's data around every event, pairwise grad/grad, grad/data and grad/caller-array aliasing after backward, and the operational test 'add 1 to one .grad in place, re-checksum everything else'",
+         "trusts: np.shares_memory; backward passes through partially cleared graphs are not judged (C09's subject); aliasing caused by the un-copied seed is a listed known finding (an existing test depends on it)"),
+ "C14": ("3/C14", "seeded search over DAG programs with terminals of every shape and float16/32/64 leaves: L.backward(g) and (L*g).sum().backward() executed as two schedules of the same program and compared with each other and with the tape; non-broadcastable seeds injected as faults (must raise, must write nothing); nnet layers as terminals; after every statement every .grad is None or an exact ndarray of the tensor's shape and dtype",
+         "trusts: the tape for seeded cotangents; low-precision runs compared with dtype-scaled tolerance; the GRU hidden-sequence shape is a listed known finding pinned by an existing test"),
  "C10": ("3/C10", "seeded search over mutation/DAG histories with random dtype and constant=None/True/False assignments on leaves, ops and views; flags compared with the propagation rules after every statement, integer constant=False rejections checked, gradients compared with the tape with constant edges cut, and a twin execution with eligible constant leaves replaced by plain ndarrays must give bit-identical gradients",
          "trusts: the tape; a non-constant view reached through a constant view is not judged (no statement defines its gradient); twin substitution only for constant leaves that are only read as operands of non-view ops"),
  "C13": ("3/C13", "seeded search over epoch and lock histories with naturally failing statements of every listed kind and injected kernel failures at arbitrary positions (plus GC pre-emption during rollback); snapshot-before = snapshot-after of every live object, the C08 lock model evaluated right after every failed statement, and a twin execution of the same history without the failing statements that must reach bit-identical values and gradients at every backward",
